@@ -91,6 +91,13 @@ def predicting(args):
         r_trained = model.trained
         r_eval = r_pred = 0
         r_x, r_y, r_train = [], [], []
+        for j in range(args.get('preload', 0)):
+            # the training set is seeded before the run (read_from_data_store() after an earlier pass-through run): the
+            # schedule counts TRUE EVALUATIONS, not training-set rows
+            px, py = [ctx.real('pre%d_x0' % j), ctx.real('pre%d_x1' % j)], [ctx.real('pre%d_y' % j)]
+            model.add_data(list(px), list(py))
+            r_x.append(px)
+            r_y.append(py)
         for i in range(k):
             if args.get('train_step_changes') and i == args['train_step_changes']:
                 # the user switches the retraining schedule in the middle of a run (sampling phase with -1 first, a
@@ -184,6 +191,11 @@ def configs(tier):
                     'engine': {'validate': 20}})
     out.append({'name': 'predict-k3-hook-train_step-changes-at-request-1', 'task': 'predicting',
                 'args': {'k': 3, 'hook': True, 'train_step_changes': 1}, 'weight': 4 ** 3 * 4, 'split': 48, 'engine': {'validate': 20}})
+    for k, pre in (((3, 1), (4, 3)) if tier == 'quick' else ((3, 1), (4, 3), (5, 2), (4, 5))):
+        out.append({'name': 'predict-k%d-nohook-preloaded-%d' % (k, pre), 'task': 'predicting',
+                    'args': {'k': k, 'hook': False, 'preload': pre}, 'weight': 4 * 2 ** k, 'split': 48 if k >= 4 else None, 'engine': {'validate': 20}})
+    out.append({'name': 'predict-k3-hook-preloaded-1', 'task': 'predicting',
+                'args': {'k': 3, 'hook': True, 'preload': 1}, 'weight': 4 ** 3, 'split': 48, 'engine': {'validate': 20}})
     scripts = [(4, 'EEEEPPPPEEEEEE'), (5, 'EEEEEPPPEPEEEEEEE'), (7, 'EEEEEEEPPPPEEEEEEEEEEEEEE'), (4, 'EEEEPEPEPEPEEEEE')]
     for ts, sc in (scripts[:3] if tier == 'quick' else scripts):
         out.append({'name': 'predict-scripted-train_step%d-%s' % (ts, sc), 'task': 'predicting',
